@@ -886,6 +886,130 @@ func typeOfField(v ssa.Value) string {
 	return p
 }
 
+// fxEnv maps the parameters of an inlined helper to the caller's arguments.
+type fxEnv struct {
+	bind map[*ssa.Parameter]ssa.Value
+	up   *fxEnv
+}
+
+// resolve sees through wrappers and helper parameters to the caller's value.
+func (e *fxEnv) resolve(v ssa.Value) (ssa.Value, *fxEnv) {
+	for i := 0; i < 8; i++ {
+		v = fxStripNoConv(v)
+		p, ok := v.(*ssa.Parameter)
+		if !ok || e == nil {
+			return v, e
+		}
+		a, ok := e.bind[p]
+		if !ok {
+			return v, e
+		}
+		v, e = a, e.up
+	}
+	return v, e
+}
+
+type elemOrigin struct {
+	zero, raw string // Mast field giving the type; string-node field giving the bytes
+	via       string
+	problem   string
+}
+
+// decodedElems traces a decoded element to
+// reflect.New(reflect.TypeOf(m.F)).Elem().Interface() and to the raw message
+// unmarshalled into it, following static in-repo helpers (depth ≤ 2) with
+// their parameters mapped to the arguments.
+func decodedElems(v ssa.Value, env *fxEnv, depth int) []elemOrigin {
+	v, env = env.resolve(v)
+	if ir.IsNilConst(v) {
+		return nil
+	}
+	if call, idx := fxCallOf(v); call != nil && idx == 0 {
+		if callee := call.Call.StaticCallee(); callee != nil && fxOwnFunc(callee) {
+			if depth >= 2 {
+				return []elemOrigin{{problem: "helper nesting too deep at " + callee.Name()}}
+			}
+			sub := &fxEnv{bind: map[*ssa.Parameter]ssa.Value{}, up: env}
+			for i, p := range callee.Params {
+				if i < len(call.Call.Args) {
+					sub.bind[p] = call.Call.Args[i]
+				}
+			}
+			var out []elemOrigin
+			as := &fxAssume{}
+			for _, r := range fxSuccessReturns(callee) {
+				if len(r.Results) == 0 {
+					continue
+				}
+				for _, l := range as.leaves(r.Results[0], nil) {
+					for _, o := range decodedElems(l, sub, depth+1) {
+						if o.via == "" {
+							o.via = " (via " + callee.Name() + ")"
+						}
+						out = append(out, o)
+					}
+				}
+			}
+			if len(out) == 0 {
+				out = append(out, elemOrigin{problem: "helper " + callee.Name() + " returns nothing the rule can trace"})
+			}
+			return out
+		}
+	}
+	step := func(v ssa.Value, name string) *ssa.Call {
+		c, callee := fxCallee(fxStripNoConv(v))
+		if callee == nil || fxFullName(callee) != name || len(c.Call.Args) == 0 {
+			return nil
+		}
+		return c
+	}
+	bad := []elemOrigin{{problem: "the decoded element " + ir.Sym(v) + " is not reflect.New(reflect.TypeOf(m.F)).Elem().Interface()"}}
+	i := step(v, "(reflect.Value).Interface")
+	if i == nil {
+		return bad
+	}
+	e := step(i.Call.Args[0], "(reflect.Value).Elem")
+	if e == nil {
+		return bad
+	}
+	n := step(e.Call.Args[0], "reflect.New")
+	if n == nil {
+		return bad
+	}
+	t := step(n.Call.Args[0], "reflect.TypeOf")
+	if t == nil {
+		return bad
+	}
+	tv, _ := env.resolve(t.Call.Args[0])
+	b, zero, ok := fxFieldLoad(tv)
+	if !ok || b == nil || !ir.IsPtrToNamed(b.Type(), "Mast") {
+		return bad
+	}
+	o := elemOrigin{zero: zero}
+	// which raw message was unmarshalled into it
+	for _, r := range *n.Referrers() {
+		ic, ok := r.(*ssa.Call)
+		if !ok || ic.Referrers() == nil {
+			continue
+		}
+		for _, rr := range *ic.Referrers() {
+			uc, ok := rr.(*ssa.Call)
+			if !ok || uc.Call.IsInvoke() || uc.Call.StaticCallee() != nil || len(uc.Call.Args) != 2 {
+				continue
+			}
+			src, _ := env.resolve(uc.Call.Args[0])
+			if u, ok := src.(*ssa.UnOp); ok && u.Op == token.MUL {
+				if ria, ok := u.X.(*ssa.IndexAddr); ok {
+					if _, p, ok := fxFieldLoad(ria.X); ok {
+						o.raw = p
+					}
+				}
+			}
+		}
+	}
+	return []elemOrigin{o}
+}
+
 func runCodecSym(c *Ctx) {
 	zeroFor := map[string]string{"Key": "zeroKey", "Value": "zeroValue"}
 	// 1. encoder order and element kinds
@@ -1048,44 +1172,19 @@ func runCodecSym(c *Ctx) {
 					if ir.IsNilConst(l) {
 						continue
 					}
-					gotF, newCall := reflectZeroField(l)
-					if gotF == "" {
-						c.Undecided(sfn, pos, sub, "the decoded element "+ir.Sym(l)+" is not reflect.New(reflect.TypeOf(m.F)).Elem().Interface()")
-						continue
-					}
-					if gotF != want {
-						c.Violation(sfn, pos, sub, fmt.Sprintf("node.%s[i] is built with the type of m.%s, not m.%s", target, gotF, want))
-						continue
-					}
-					// which raw message was unmarshalled into it
-					raw := ""
-					for _, r := range *newCall.Referrers() {
-						ic, ok := r.(*ssa.Call)
-						if !ok || ic.Referrers() == nil {
-							continue
+					for _, o := range decodedElems(l, nil, 0) {
+						switch {
+						case o.problem != "":
+							c.Undecided(sfn, pos, sub, o.problem)
+						case o.zero != want:
+							c.Violation(sfn, pos, sub, fmt.Sprintf("node.%s[i] is built with the type of m.%s, not m.%s%s", target, o.zero, want, o.via))
+						case o.raw == "":
+							c.Undecided(sfn, pos, sub, "the raw message unmarshalled into the element is not traced to a field of the string node")
+						case o.raw != target:
+							c.Violation(sfn, pos, sub, fmt.Sprintf("node.%s[i] is decoded from the raw %s list%s", target, o.raw, o.via))
+						default:
+							c.OK(pos, sub, "reflect.TypeOf(m."+want+"), from raw "+o.raw+"[i]"+o.via, false)
 						}
-						for _, rr := range *ic.Referrers() {
-							uc, ok := rr.(*ssa.Call)
-							if !ok || uc.Call.IsInvoke() || uc.Call.StaticCallee() != nil || len(uc.Call.Args) != 2 {
-								continue
-							}
-							src := fxStripNoConv(uc.Call.Args[0])
-							if u, ok := src.(*ssa.UnOp); ok && u.Op == token.MUL {
-								if ria, ok := u.X.(*ssa.IndexAddr); ok {
-									if _, p, ok := fxFieldLoad(ria.X); ok {
-										raw = p
-									}
-								}
-							}
-						}
-					}
-					switch {
-					case raw == "":
-						c.Undecided(sfn, pos, sub, "the raw message unmarshalled into the element is not traced to a field of the string node")
-					case raw != target:
-						c.Violation(sfn, pos, sub, fmt.Sprintf("node.%s[i] is decoded from the raw %s list", target, raw))
-					default:
-						c.OK(pos, sub, "reflect.TypeOf(m."+want+"), from raw "+raw+"[i]", false)
 					}
 				}
 			}
